@@ -27,6 +27,7 @@ var extraFiles = []string{
 	"bep44/store.go",
 	"bep44/memory.go",
 	"exts/getput/getput.go",
+	"k-nearest-nodes/k-nearest-nodes.go.go",
 }
 
 var skipRoot = map[string]bool{
@@ -160,6 +161,7 @@ func rewriteFile(src, rel string, st *Stats) ([]byte, bool, error) {
 		}
 	}
 	mapRewrites := rw.rewriteNodeMaps(f)
+	mapRewrites += rw.rewriteMaphash(f)
 	if !rw.used && mapRewrites == 0 {
 		return nil, false, nil
 	}
@@ -540,6 +542,50 @@ func (rw *rewriter) rewriteNodeMaps(f *ast.File) int {
 		}
 		return true
 	})
+	rw.st.MapRewrites += n
+	return n
+}
+
+// rewriteMaphash redirects hash/maphash (unseedable) to simrt's deterministic
+// stand-in and drops the import.
+func (rw *rewriter) rewriteMaphash(f *ast.File) int {
+	has := false
+	for _, im := range f.Imports {
+		if im.Path.Value == `"hash/maphash"` && im.Name == nil {
+			has = true
+		}
+	}
+	if !has {
+		return 0
+	}
+	n := 0
+	ast.Inspect(f, func(x ast.Node) bool {
+		if s, ok := x.(*ast.SelectorExpr); ok {
+			if id, ok := s.X.(*ast.Ident); ok && id.Name == "maphash" && id.Obj == nil {
+				id.Name = "simrt"
+				n++
+			}
+		}
+		return true
+	})
+	if n == 0 {
+		return 0
+	}
+	for _, d := range f.Decls {
+		gd, ok := d.(*ast.GenDecl)
+		if !ok || gd.Tok != token.IMPORT {
+			continue
+		}
+		var keep []ast.Spec
+		for _, sp := range gd.Specs {
+			if is := sp.(*ast.ImportSpec); is.Path.Value == `"hash/maphash"` {
+				continue
+			}
+			keep = append(keep, sp)
+		}
+		gd.Specs = keep
+	}
+	rw.used = true
 	rw.st.MapRewrites += n
 	return n
 }
